@@ -506,6 +506,45 @@ Proof.
 Qed.
 Print Assumptions C17_code_tables_from_model.
 
+(* the REMAINING tables, derived from the model as well (ent3): a second probe declaration whose names tell
+   the four strcase functions apart is expanded by [expand_with]; its components are cut into one segment
+   per function of entityNode.run; then
+   - the names each segment defines / refers to are the literals that function passes to componentName /
+     innerRef (suffix_sites);
+   - every generated name is the strcase function the code calls in that function, applied to the declared
+     name, and no other function of entity.go calls strcase (strcase_calls, status literal,
+     entity_name_function);
+   - every name / path built with Sprintf is the code's format applied, the topic message / service names
+     are topic.go's formats applied, and entity.go has no further format (sprintf_formats, topic_formats);
+   - the literal property names of each function are the properties of its segment the user did not
+     declare (property_names).
+   So each regenerated table is compared with what the MODEL FUNCTION computes; the hand-typed tables of
+   C17_code_tables remain only as a second, order-sensitive drift detector. *)
+Theorem C17_segments_cover : concat (map segment (seq 0 10)) = probe2_cs.
+Proof. exact segments_cover. Qed.
+Print Assumptions C17_segments_cover.
+
+Theorem C17_suffix_sites_from_model : forallb segment_matches (seq 0 10) = true.
+Proof. exact suffix_sites_from_model. Qed.
+Print Assumptions C17_suffix_sites_from_model.
+
+Theorem C17_strcase_calls_from_model : strcase_calls_from_model_stmt.
+Proof. exact strcase_calls_from_model. Qed.
+Print Assumptions C17_strcase_calls_from_model.
+
+Theorem C17_formats_from_model : formats_from_model2_stmt.
+Proof. exact formats_from_model2. Qed.
+Print Assumptions C17_formats_from_model.
+
+Theorem C17_property_names_from_model :
+  forallb (fun i => match nth_error EntityGen.run_order i with
+                    | Some f => same_names (seg_props i) (prop_lits f)
+                    | None => false end) [3; 5; 6; 8]%nat = true
+  /\ same_strings (dedup (map fst EntityGen.property_names))
+                  (flat_map (fun i => match nth_error EntityGen.run_order i with Some f => [f] | None => [] end) [3; 5; 6; 8]%nat) = true.
+Proof. exact property_names_from_model2. Qed.
+Print Assumptions C17_property_names_from_model.
+
 (* the README's documented example (re-read from README.md on every run): the declaration it
    prints expands, in the model, to every message, field, status value, rpc and path it shows *)
 Theorem C17_readme_example : readme_agrees.
